@@ -116,6 +116,15 @@ def lattice_mesh(kind, rng, size=None, side=None, shear=True, renumber=True):
     else:
         raise ValueError(kind)
     p = np.array(p, dtype=float)
+    if kind in ('tri', 'quad', 'tet', 'hex') and rng.integers(0, 2):
+        # non-uniform lattice: spacings 1, 2 or 4 per axis (cell determinants stay powers of two, cells differ in size)
+        for ax in range(p.shape[0]):
+            levels = np.unique(p[ax])
+            widths = rng.choice([1, 2, 4], size=max(len(levels) - 1, 0))
+            new = np.concatenate(([0.0], np.cumsum(widths))) * (levels[1] - levels[0] if len(levels) > 1 else 1)
+            p[ax] = new[np.searchsorted(levels, p[ax])]
+        if np.abs(p).max() > 16:
+            p = p / 2 if (p % 2 == 0).all() else p
     if shear and kind in ('tri', 'tet') and rng.integers(0, 2):
         s = int(rng.integers(-1, 2))
         p[0] = p[0] + s * p[1]                     # unimodular shear keeps determinants (affine cells only)
